@@ -1,10 +1,10 @@
 (* Properties_C11.v - C11 "Mutex, Semaphore, Signal, Monitor and Thread keep their contracts".
 
-   Every theorem is about  w = reach scripts started sig0 sem0 sched  =  the state of the model
+   Every theorem is about  w = reach scripts results started sig0 sem0 sched  =  the state of the model
    (SyncModel.v: libnstd's five classes as programs of primitive calls, on Sched.v: pthread mutex /
    condition variable / POSIX semaphore / create / join) after ANY list of scheduler moves
    (Run t | Spurious t | Timeout t | TimeoutSteal t | Clock n | Rotate c), for any number of threads, any
-   scripts of library calls, any initial signal state and any initial semaphore value >= 0.  [trace w] is the
+   scripts of library calls, any results of the thread functions, any initial signal state and any initial semaphore value >= 0.  [trace w] is the
    history of library-call returns (newest first); SyncSpec.v translates the property text into
    predicates over that history.  TimeoutSteal is the POSIX-permitted race in which a pthread_cond_timedwait
    reports ETIMEDOUT although a signal / broadcast has already been directed at it (the wake-up is consumed).
@@ -89,19 +89,19 @@ Import ListNotations.
 Local Open Scope Z_scope.
 
 (* ---------------- Mutex ---------------- *)
-Theorem mutex_history_exclusive : forall scripts started s0 v0 sched, 0 <= v0 ->
-  mtx_ok (trace (reach scripts started s0 v0 sched)) = true.
+Theorem mutex_history_exclusive : forall scripts results started s0 v0 sched, 0 <= v0 ->
+  mtx_ok (trace (reach scripts results started s0 v0 sched)) = true.
 Proof. exact mutex_history_exclusive_l. Qed.
 Print Assumptions mutex_history_exclusive.
 
-Theorem mutex_one_holder : forall scripts started s0 v0 sched, 0 <= v0 -> forall u v,
-  (held (trace (reach scripts started s0 v0 sched)) u > 0)%nat ->
-  (held (trace (reach scripts started s0 v0 sched)) v > 0)%nat -> u = v.
+Theorem mutex_one_holder : forall scripts results started s0 v0 sched, 0 <= v0 -> forall u v,
+  (held (trace (reach scripts results started s0 v0 sched)) u > 0)%nat ->
+  (held (trace (reach scripts results started s0 v0 sched)) v > 0)%nat -> u = v.
 Proof. exact mutex_one_holder_l. Qed.
 Print Assumptions mutex_one_holder.
 
-Theorem mutex_reentrant : forall scripts started s0 v0 sched, 0 <= v0 -> forall t,
-  let w := reach scripts started s0 v0 sched in
+Theorem mutex_reentrant : forall scripts results started s0 v0 sched, 0 <= v0 -> forall t,
+  let w := reach scripts results started s0 v0 sched in
   m_owner (mtx (ps w) XM) = Some t -> pc (tc w t) = MtxLockP -> enabled w t = true.
 Proof. exact mutex_reentrant_l. Qed.
 Print Assumptions mutex_reentrant.
@@ -110,14 +110,14 @@ Theorem trylock_never_blocks : forall p t m, prim_step p t (PTryLock m) <> Block
 Proof. exact trylock_never_blocks_l. Qed.
 Print Assumptions trylock_never_blocks.
 
-Theorem trylock_enabled : forall scripts started s0 v0 sched, 0 <= v0 -> forall t,
-  let w := reach scripts started s0 v0 sched in
+Theorem trylock_enabled : forall scripts results started s0 v0 sched, 0 <= v0 -> forall t,
+  let w := reach scripts results started s0 v0 sched in
   pc (tc w t) = MtxTryP \/ pc (tc w t) = MonTryP -> enabled w t = true.
 Proof. exact trylock_enabled_l. Qed.
 Print Assumptions trylock_enabled.
 
-Theorem trylock_succeeds_iff : forall scripts started s0 v0 sched, 0 <= v0 -> forall t,
-  let w := reach scripts started s0 v0 sched in
+Theorem trylock_succeeds_iff : forall scripts results started s0 v0 sched, 0 <= v0 -> forall t,
+  let w := reach scripts results started s0 v0 sched in
   pc (tc w t) = MtxTryP ->
   forall p' r, prim_step (ps w) t (pending (pc (tc w t))) = Return p' r ->
   (r = 0 <-> (m_owner (mtx (ps w) XM) = None \/ m_owner (mtx (ps w) XM) = Some t)).
@@ -125,49 +125,49 @@ Proof. exact trylock_succeeds_iff_l. Qed.
 Print Assumptions trylock_succeeds_iff.
 
 (* ---------------- Semaphore ---------------- *)
-Theorem semaphore_conserved : forall scripts started s0 v0 sched, 0 <= v0 ->
-  let w := reach scripts started s0 v0 sched in
+Theorem semaphore_conserved : forall scripts results started s0 v0 sched, 0 <= v0 ->
+  let w := reach scripts results started s0 v0 sched in
   sem_ok v0 (trace w) = true /\ sem_waits (trace w) + sem (ps w) XS = v0 + sem_signals (trace w) /\ 0 <= sem (ps w) XS.
 Proof. exact semaphore_conserved_l. Qed.
 Print Assumptions semaphore_conserved.
 
-Theorem semaphore_no_waiter_blocked_while_positive : forall scripts started s0 v0 sched, 0 <= v0 -> forall t,
-  let w := reach scripts started s0 v0 sched in
+Theorem semaphore_no_waiter_blocked_while_positive : forall scripts results started s0 v0 sched, 0 <= v0 -> forall t,
+  let w := reach scripts results started s0 v0 sched in
   0 < sem (ps w) XS -> (pc (tc w t) = SemWaitP \/ exists d, pc (tc w t) = SemWaitTP d) -> enabled w t = true.
 Proof. exact semaphore_no_waiter_blocked_while_positive_l. Qed.
 Print Assumptions semaphore_no_waiter_blocked_while_positive.
 
 (* ---------------- Signal ---------------- *)
-Theorem signal_wait_true_only_if_set : forall scripts started s0 v0 sched, 0 <= v0 ->
-  let w := reach scripts started s0 v0 sched in
+Theorem signal_wait_true_only_if_set : forall scripts results started s0 v0 sched, 0 <= v0 ->
+  let w := reach scripts results started s0 v0 sched in
   sig_ok s0 (trace w) = true /\ sig_state s0 (trace w) = sigf w.
 Proof. exact signal_wait_true_only_if_set_l. Qed.
 Print Assumptions signal_wait_true_only_if_set.
 
-Theorem signal_no_waiter_blocked_while_set : forall scripts started s0 v0 sched, 0 <= v0 -> forall u,
-  let w := reach scripts started s0 v0 sched in
+Theorem signal_no_waiter_blocked_while_set : forall scripts results started s0 v0 sched, 0 <= v0 -> forall u,
+  let w := reach scripts results started s0 v0 sched in
   sigf w = true -> blocked_on SC (st (ps w) u) = true ->
   exists v, pc (tc w v) = SigSetBcast /\ enabled w v = true.
 Proof. exact signal_no_waiter_blocked_while_set_l. Qed.
 Print Assumptions signal_no_waiter_blocked_while_set.
 
-Theorem signal_set_releases_all_waiters : forall scripts started s0 v0 sched, 0 <= v0 -> forall t,
-  let w := reach scripts started s0 v0 sched in
+Theorem signal_set_releases_all_waiters : forall scripts results started s0 v0 sched, 0 <= v0 -> forall t,
+  let w := reach scripts results started s0 v0 sched in
   pc (tc w t) = SigSetBcast -> forall u, blocked_on SC (st (ps (step w (Run t))) u) = false.
 Proof. exact signal_set_releases_all_waiters_l. Qed.
 Print Assumptions signal_set_releases_all_waiters.
 
 (* the setter owns the internal mutex at its broadcast and until its unlock; both steps are enabled *)
-Theorem signal_set_broadcasts_under_mutex : forall scripts started s0 v0 sched, 0 <= v0 -> forall t,
-  let w := reach scripts started s0 v0 sched in
+Theorem signal_set_broadcasts_under_mutex : forall scripts results started s0 v0 sched, 0 <= v0 -> forall t,
+  let w := reach scripts results started s0 v0 sched in
   pc (tc w t) = SigSetBcast \/ pc (tc w t) = SigSetUnlock ->
   m_owner (mtx (ps w) SM) = Some t /\ enabled w t = true.
 Proof. exact signal_set_broadcasts_under_mutex_l. Qed.
 Print Assumptions signal_set_broadcasts_under_mutex.
 
 (* the unlock is the last primitive call of set(): the step that performs it returns from the library call *)
-Theorem signal_set_unlock_is_last : forall scripts started s0 v0 sched, 0 <= v0 -> forall t,
-  let w := reach scripts started s0 v0 sched in
+Theorem signal_set_unlock_is_last : forall scripts results started s0 v0 sched, 0 <= v0 -> forall t,
+  let w := reach scripts results started s0 v0 sched in
   pc (tc w t) = SigSetUnlock ->
   let w' := step w (Run t) in
   pc (tc w' t) = Idle /\ trace w' = EvRet t SigSet 0 :: trace w.
@@ -175,14 +175,14 @@ Proof. exact signal_set_unlock_is_last_l. Qed.
 Print Assumptions signal_set_unlock_is_last.
 
 (* ---------------- Monitor ---------------- *)
-Theorem monitor_waits_le_sets : forall scripts started s0 v0 sched, 0 <= v0 ->
-  let w := reach scripts started s0 v0 sched in
+Theorem monitor_waits_le_sets : forall scripts results started s0 v0 sched, 0 <= v0 ->
+  let w := reach scripts results started s0 v0 sched in
   mon_ok (trace w) = true /\ mon_waits (trace w) + b2z (monf w) <= mon_sets (trace w).
 Proof. exact monitor_waits_le_sets_l. Qed.
 Print Assumptions monitor_waits_le_sets.
 
-Theorem monitor_set_releases_a_waiter : forall scripts started s0 v0 sched, 0 <= v0 -> forall u,
-  let w := reach scripts started s0 v0 sched in
+Theorem monitor_set_releases_a_waiter : forall scripts results started s0 v0 sched, 0 <= v0 -> forall u,
+  let w := reach scripts results started s0 v0 sched in
   monf w = true -> blocked_on MC (st (ps w) u) = true -> mark w u = true ->
   exists v, ((pc (tc w v) = MonSetUnlock \/ pc (tc w v) = MonSetSignal) /\ enabled w v = true) \/
             (exists rc dl dl', st (ps w) v = TWoken MM rc dl /\ pc (tc w v) = MonWaitCond dl' /\
@@ -191,8 +191,8 @@ Proof. exact monitor_set_releases_a_waiter_l. Qed.
 Print Assumptions monitor_set_releases_a_waiter.
 
 (* for every return code rc of the condition wait - 0 or ETIMEDOUT (a timed-out waiter may have consumed the signal) *)
-Theorem monitor_woken_waiter_returns_true : forall scripts started s0 v0 sched, 0 <= v0 -> forall v rc dl dl',
-  let w := reach scripts started s0 v0 sched in
+Theorem monitor_woken_waiter_returns_true : forall scripts results started s0 v0 sched, 0 <= v0 -> forall v rc dl dl',
+  let w := reach scripts results started s0 v0 sched in
   st (ps w) v = TWoken MM rc dl -> pc (tc w v) = MonWaitCond dl' -> is_free (mtx (ps w) MM) = true -> monf w = true ->
   let w' := step w (Run v) in
   monf w' = false /\ exists c, trace w' = EvRet v c 1 :: trace w /\ is_mon_wait c = true.
@@ -204,7 +204,7 @@ Print Assumptions monitor_woken_waiter_returns_true.
    W1 blocks, W2 blocks, rotate, set(), clock to W2's deadline, TimeoutSteal W2, W2 and the setter run to their end -
    the flag is up, W1 is blocked and marked, W2 has returned false, and no thread is inside set() or woken *)
 Theorem monitor_set_releases_a_waiter_refuted_before_repair :
-  let w := run_unrepaired (init steal_scripts (fun _ => true) false 0) steal_schedule in
+  let w := run_unrepaired (init steal_scripts res100 (fun _ => true) false 0) steal_schedule in
   monf w = true /\ blocked_on MC (st (ps w) 0%nat) = true /\ mark w 0%nat = true /\
   hd_error (trace w) = Some (EvExit 2%nat 102) /\
   In (EvRet 1%nat (MonWaitT 10) 0) (trace w) /\
@@ -215,8 +215,8 @@ Proof. exact unrepaired_loses_wakeup. Qed.
 Print Assumptions monitor_set_releases_a_waiter_refuted_before_repair.
 
 (* ---------------- timed waits ---------------- *)
-Theorem timed_wait_false_only_after_timeout : forall scripts started s0 v0 sched, 0 <= v0 ->
-  timed_ok (trace (reach scripts started s0 v0 sched)) = true.
+Theorem timed_wait_false_only_after_timeout : forall scripts results started s0 v0 sched, 0 <= v0 ->
+  timed_ok (trace (reach scripts results started s0 v0 sched)) = true.
 Proof. exact timed_wait_false_only_after_timeout_l. Qed.
 Print Assumptions timed_wait_false_only_after_timeout.
 
@@ -232,43 +232,43 @@ Proof. exact deadline_is_spec_lemma. Qed.
 Print Assumptions deadline_is_spec.
 
 (* ---------------- Thread ---------------- *)
-Theorem join_returns_result_after_finish : forall scripts started s0 v0 sched, 0 <= v0 ->
-  join_ok (trace (reach scripts started s0 v0 sched)) = true.
+Theorem join_returns_result_after_finish : forall scripts results started s0 v0 sched, 0 <= v0 ->
+  join_ok (trace (reach scripts results started s0 v0 sched)) = true.
 Proof. exact join_returns_result_after_finish_l. Qed.
 Print Assumptions join_returns_result_after_finish.
 
-Theorem thread_result : forall scripts started s0 v0 sched, 0 <= v0 -> forall t v,
-  let w := reach scripts started s0 v0 sched in
+Theorem thread_result : forall scripts results started s0 v0 sched, 0 <= v0 -> forall t v,
+  let w := reach scripts results started s0 v0 sched in
   st (ps w) t = TDone v -> exited (trace w) t = Some v.
 Proof. exact thread_result_l. Qed.
 Print Assumptions thread_result.
 
 (* ---------------- granularity: the fine machine (SyncFine.v) ---------------- *)
 (* a thread standing in front of an access to Signal::signaled owns the Signal's mutex and is running - any scripts *)
-Theorem fine_signal_accesses_under_mutex : forall scripts started s0 v0 fsched t,
-  let fw := freach scripts started s0 v0 fsched in
+Theorem fine_signal_accesses_under_mutex : forall scripts results started s0 v0 fsched t,
+  let fw := freach scripts results started s0 v0 fsched in
   fclass_of (fp fw t) = KSig -> m_owner (mtx (ps (base fw)) SM) = Some t /\ st (ps (base fw)) t = TRun.
 Proof. exact fine_signal_accesses_under_mutex_l. Qed.
 Print Assumptions fine_signal_accesses_under_mutex.
 
 (* the same for Monitor::signaled, for clients that never unlock a monitor another thread owns *)
-Theorem fine_monitor_accesses_under_mutex : forall scripts started s0 v0 fsched t,
-  let fw := freach scripts started s0 v0 fsched in
+Theorem fine_monitor_accesses_under_mutex : forall scripts results started s0 v0 fsched t,
+  let fw := freach scripts results started s0 v0 fsched in
   fclass_of (fp fw t) = KMon -> foreign_unlock fw = false ->
   m_owner (mtx (ps (base fw)) MM) = Some t /\ st (ps (base fw)) t = TRun.
 Proof. exact fine_monitor_accesses_under_mutex_l. Qed.
 Print Assumptions fine_monitor_accesses_under_mutex.
 
-Theorem fine_access_exclusive : forall scripts started s0 v0 fsched t u,
-  let fw := freach scripts started s0 v0 fsched in
+Theorem fine_access_exclusive : forall scripts results started s0 v0 fsched t u,
+  let fw := freach scripts results started s0 v0 fsched in
   (fclass_of (fp fw t) = KSig -> fclass_of (fp fw u) = KSig -> t = u) /\
   (foreign_unlock fw = false -> fclass_of (fp fw t) = KMon -> fclass_of (fp fw u) = KMon -> t = u).
 Proof. exact fine_access_exclusive_l. Qed.
 Print Assumptions fine_access_exclusive.
 
 (* while t stands in front of its access, no move other than t's own changes the flag *)
-Theorem fine_flag_stable : forall scripts started s0 v0 fsched t mv,
-  let fw := freach scripts started s0 v0 fsched in
+Theorem fine_flag_stable : forall scripts results started s0 v0 fsched t mv,
+  let fw := freach scripts results started s0 v0 fsched in
   mv <> Run t ->
   (fclass_of (fp fw t) = KSig -> sigf (base (fstep fw mv)) = sigf (base fw)) /\
   (fclass_of (fp fw t) = KMon -> foreign_unlock (fstep fw mv) = false -> monf (base (fstep fw mv)) = monf (base fw)).
@@ -276,42 +276,42 @@ Proof. exact fine_flag_stable_l. Qed.
 Print Assumptions fine_flag_stable.
 
 (* MAIN: every fine run is matched by a coarse run; c = the fine state with its pending accesses performed *)
-Theorem fine_granularity_adds_no_behaviours : forall scripts started s0 v0 fsched,
-  let fw := freach scripts started s0 v0 fsched in
+Theorem fine_granularity_adds_no_behaviours : forall scripts results started s0 v0 fsched,
+  let fw := freach scripts results started s0 v0 fsched in
   foreign_unlock fw = false ->
-  exists sched c, let w := reach scripts started s0 v0 sched in
+  exists sched c, let w := reach scripts results started s0 v0 sched in
     complete_of fw c /\ agree w c /\ tr_eq (trace w) (trace c).
 Proof. exact fine_granularity_adds_no_behaviours_l. Qed.
 Print Assumptions fine_granularity_adds_no_behaviours.
 
-Theorem fine_quiescent_is_coarse : forall scripts started s0 v0 fsched,
-  let fw := freach scripts started s0 v0 fsched in
+Theorem fine_quiescent_is_coarse : forall scripts results started s0 v0 fsched,
+  let fw := freach scripts results started s0 v0 fsched in
   foreign_unlock fw = false -> quiescent fw ->
-  exists sched, let w := reach scripts started s0 v0 sched in agree w (base fw) /\ tr_eq (trace w) (trace (base fw)).
+  exists sched, let w := reach scripts results started s0 v0 sched in agree w (base fw) /\ tr_eq (trace w) (trace (base fw)).
 Proof. exact fine_quiescent_is_coarse_l. Qed.
 Print Assumptions fine_quiescent_is_coarse.
 
 (* every fine state becomes quiescent by running its pending threads: at most 3 moves, the history only grows *)
-Theorem fine_completes : forall scripts started s0 v0 fsched,
-  let fw := freach scripts started s0 v0 fsched in
+Theorem fine_completes : forall scripts results started s0 v0 fsched,
+  let fw := freach scripts results started s0 v0 fsched in
   foreign_unlock fw = false ->
   exists moves sched, (length moves <= 3)%nat /\
-    let fw2 := frun_all fw moves in let w := reach scripts started s0 v0 sched in
+    let fw2 := frun_all fw moves in let w := reach scripts results started s0 v0 sched in
     quiescent fw2 /\ foreign_unlock fw2 = false /\ (exists evs, trace (base fw2) = evs ++ trace (base fw)) /\
     agree w (base fw2) /\ tr_eq (trace w) (trace (base fw2)).
 Proof. exact fine_completes_l. Qed.
 Print Assumptions fine_completes.
 
 (* the six history predicates, literally, of every fine-reachable history *)
-Theorem fine_all_ok : forall scripts started s0 v0 fsched, 0 <= v0 ->
-  let fw := freach scripts started s0 v0 fsched in
+Theorem fine_all_ok : forall scripts results started s0 v0 fsched, 0 <= v0 ->
+  let fw := freach scripts results started s0 v0 fsched in
   foreign_unlock fw = false -> all_ok s0 v0 (trace (base fw)) = [true; true; true; true; true; true].
 Proof. exact fine_all_ok_l. Qed.
 Print Assumptions fine_all_ok.
 
 (* the hypothesis foreign_unlock = false is necessary for the Monitor half *)
 Theorem fine_monitor_race_under_foreign_unlock :
-  let fw := freach race_scripts (fun _ => true) false 0 race_sched in
+  let fw := freach race_scripts res100 (fun _ => true) false 0 race_sched in
   foreign_unlock fw = true /\ mon_sets (trace (base fw)) = 1 /\ mon_waits (trace (base fw)) = 2 /\
   mon_ok (trace (base fw)) = false /\
   trace (base fw) = [EvRet 1%nat MonWait 1; EvRet 0%nat MonWait 1; EvRet 3%nat MonUnlock 0; EvExit 2%nat 102;
@@ -332,17 +332,17 @@ Definition sc3 (a b c : list libcall) (t : tid) : list libcall :=
    and wait for the mutex the setter still owns at its unlock (premise of signal_set_unlock_is_last); afterwards both
    waits return true *)
 Definition sig_sc := sc3 [SigWait] [SigSet] [SigWait].
-Definition sig_mid := reach sig_sc all_started false 0 (runs 0%nat 3%nat ++ runs 2%nat 3%nat ++ runs 1%nat 2%nat).
+Definition sig_mid := reach sig_sc res100 all_started false 0 (runs 0%nat 3%nat ++ runs 2%nat 3%nat ++ runs 1%nat 2%nat).
 Example ex_signal_blocked_while_set :
   (sigf sig_mid, blocked_on SC (st (ps sig_mid) 0%nat), blocked_on SC (st (ps sig_mid) 2%nat), pc (tc sig_mid 1%nat),
    m_owner (mtx (ps sig_mid) SM))
   = (true, true, true, SigSetBcast, Some 1%nat).
 Proof. vm_compute. reflexivity. Qed.
 Example ex_signal_waits_return_true :
-  trace (reach sig_sc all_started false 0 (runs 0%nat 3%nat ++ runs 2%nat 3%nat ++ runs 1%nat 4%nat ++ runs 0%nat 2%nat ++ runs 2%nat 2%nat))
+  trace (reach sig_sc res100 all_started false 0 (runs 0%nat 3%nat ++ runs 2%nat 3%nat ++ runs 1%nat 4%nat ++ runs 0%nat 2%nat ++ runs 2%nat 2%nat))
   = [EvRet 2%nat SigWait 1; EvRet 0%nat SigWait 1; EvRet 1%nat SigSet 0; EvSigWrite 1%nat true].
 Proof. vm_compute. reflexivity. Qed.
-Definition sig_woken := reach sig_sc all_started false 0 (runs 0%nat 3%nat ++ runs 2%nat 3%nat ++ runs 1%nat 3%nat).
+Definition sig_woken := reach sig_sc res100 all_started false 0 (runs 0%nat 3%nat ++ runs 2%nat 3%nat ++ runs 1%nat 3%nat).
 Example ex_signal_unlock_point :
   (pc (tc sig_woken 1%nat), m_owner (mtx (ps sig_woken) SM), st (ps sig_woken) 0%nat, st (ps sig_woken) 2%nat,
    enabled sig_woken 0%nat, enabled sig_woken 1%nat)
@@ -353,17 +353,17 @@ Proof. vm_compute. reflexivity. Qed.
    monitor_set_releases_a_waiter; after the signal the waiter is woken with rc = 0 and the lock is free:
    premise of monitor_woken_waiter_returns_true; at the end one successful wait, one set *)
 Definition mon_sc := sc3 [MonLock; MonWait; MonUnlock] [MonSet] [].
-Definition mon_mid := reach mon_sc all_started false 0 (runs 0%nat 4%nat ++ runs 1%nat 2%nat).
+Definition mon_mid := reach mon_sc res100 all_started false 0 (runs 0%nat 4%nat ++ runs 1%nat 2%nat).
 Example ex_monitor_marked_waiter :
   (monf mon_mid, blocked_on MC (st (ps mon_mid) 0%nat), mark mon_mid 0%nat, pc (tc mon_mid 1%nat)) = (true, true, true, MonSetUnlock).
 Proof. vm_compute. reflexivity. Qed.
-Definition mon_woken := reach mon_sc all_started false 0 (runs 0%nat 4%nat ++ runs 1%nat 4%nat).
+Definition mon_woken := reach mon_sc res100 all_started false 0 (runs 0%nat 4%nat ++ runs 1%nat 4%nat).
 Example ex_monitor_woken :
   (monf mon_woken, st (ps mon_woken) 0%nat, pc (tc mon_woken 0%nat), is_free (mtx (ps mon_woken) MM))
   = (true, TWoken MM 0 None, MonWaitCond None, true).
 Proof. vm_compute. reflexivity. Qed.
 Example ex_monitor_history :
-  trace (reach mon_sc all_started false 0 (runs 0%nat 4%nat ++ runs 1%nat 4%nat ++ runs 0%nat 3%nat))
+  trace (reach mon_sc res100 all_started false 0 (runs 0%nat 4%nat ++ runs 1%nat 4%nat ++ runs 0%nat 3%nat))
   = [EvRet 0%nat MonUnlock 0; EvRet 0%nat MonWait 1; EvRet 1%nat MonSet 0; EvMonSet 1%nat; EvRet 0%nat MonLock 0].
 Proof. vm_compute. reflexivity. Qed.
 
@@ -373,43 +373,43 @@ Proof. vm_compute. reflexivity. Qed.
    monitor_set_releases_a_waiter with the timed-out W2 as the witness; W2 then consumes the flag and returns true *)
 Definition steal_sc := sc3 [MonLock; MonWait; MonUnlock] [MonLock; MonWaitT 10; MonUnlock] [MonSet].
 Definition steal_sched := runs 0%nat 4%nat ++ runs 1%nat 4%nat ++ [Rotate MC] ++ runs 2%nat 4%nat ++ [Clock 10000000; TimeoutSteal 1%nat].
-Definition steal_mid := reach steal_sc all_started false 0 steal_sched.
+Definition steal_mid := reach steal_sc res100 all_started false 0 steal_sched.
 Example ex_monitor_stolen_signal_premise :
   (monf steal_mid, blocked_on MC (st (ps steal_mid) 0%nat), mark steal_mid 0%nat, st (ps steal_mid) 1%nat, pc (tc steal_mid 1%nat))
   = (true, true, true, TWoken MM ETIMEDOUT (Some (0, 10000000)), MonWaitCond (Some (0, 10000000))).
 Proof. vm_compute. reflexivity. Qed.
 Example ex_monitor_stolen_signal :
-  trace (reach steal_sc all_started false 0 (steal_sched ++ runs 1%nat 1%nat))
+  trace (reach steal_sc res100 all_started false 0 (steal_sched ++ runs 1%nat 1%nat))
   = [EvRet 1%nat (MonWaitT 10) 1; EvRet 2%nat MonSet 0; EvMonSet 2%nat; EvRet 1%nat MonLock 0; EvRet 0%nat MonLock 0].
 Proof. vm_compute. reflexivity. Qed.
 (* without the steal the same timed waiter times out before set() and returns false: false still means "timed out, flag down" *)
 Example ex_monitor_timeout_false :
-  trace (reach steal_sc all_started false 0 (runs 1%nat 4%nat ++ [Clock 10000000; Timeout 1%nat] ++ runs 1%nat 1%nat))
+  trace (reach steal_sc res100 all_started false 0 (runs 1%nat 4%nat ++ [Clock 10000000; Timeout 1%nat] ++ runs 1%nat 1%nat))
   = [EvRet 1%nat (MonWaitT 10) 0; EvTimedFalse 1%nat (MonWaitT 10) 0 10000000; EvRet 1%nat MonLock 0].
 Proof. vm_compute. reflexivity. Qed.
 
 (* Mutex: thread 0 holds it twice (re-entrant), thread 1's tryLock fails and its lock is not enabled *)
 Definition mtx_sc := sc3 [MtxLock; MtxLock; MtxUnlock] [MtxTryLock; MtxLock] [].
-Definition mtx_mid := reach mtx_sc all_started false 0 (runs 0%nat 4%nat ++ runs 1%nat 3%nat).
+Definition mtx_mid := reach mtx_sc res100 all_started false 0 (runs 0%nat 4%nat ++ runs 1%nat 3%nat).
 Example ex_mutex_held_twice :
   (trace mtx_mid, held (trace mtx_mid) 0%nat, m_owner (mtx (ps mtx_mid) XM), pc (tc mtx_mid 1%nat), enabled mtx_mid 1%nat)
   = ([EvRet 1%nat MtxTryLock 0; EvRet 0%nat MtxLock 0; EvRet 0%nat MtxLock 0], 2%nat, Some 0%nat, MtxLockP, false).
 Proof. vm_compute. reflexivity. Qed.
-Definition mtx_re := reach mtx_sc all_started false 0 (runs 0%nat 3%nat).
+Definition mtx_re := reach mtx_sc res100 all_started false 0 (runs 0%nat 3%nat).
 Example ex_mutex_reentrant_premise : (m_owner (mtx (ps mtx_re) XM), pc (tc mtx_re 0%nat), enabled mtx_re 0%nat) = (Some 0%nat, MtxLockP, true).
 Proof. vm_compute. reflexivity. Qed.
-Example ex_trylock_point : pc (tc (reach mtx_sc all_started false 0 (runs 0%nat 4%nat ++ runs 1%nat 1%nat)) 1%nat) = MtxTryP.
+Example ex_trylock_point : pc (tc (reach mtx_sc res100 all_started false 0 (runs 0%nat 4%nat ++ runs 1%nat 1%nat)) 1%nat) = MtxTryP.
 Proof. vm_compute. reflexivity. Qed.
 
 (* Semaphore: initial value 1; one wait, one signal, a timed waiter with the count positive is enabled *)
 Definition sem_sc := sc3 [SemWait; SemWaitT 5] [SemSignal] [SemTryWait].
-Definition sem_mid := reach sem_sc all_started false 1 (runs 0%nat 3%nat ++ runs 1%nat 2%nat).
+Definition sem_mid := reach sem_sc res100 all_started false 1 (runs 0%nat 3%nat ++ runs 1%nat 2%nat).
 Example ex_semaphore_positive_waiter :
   (trace sem_mid, sem (ps sem_mid) XS, pc (tc sem_mid 0%nat), enabled sem_mid 0%nat)
   = ([EvRet 1%nat SemSignal 0; EvRet 0%nat SemWait 1], 1, SemWaitTP (0, 5000000), true).
 Proof. vm_compute. reflexivity. Qed.
 Example ex_semaphore_history :
-  trace (reach sem_sc all_started false 1 (runs 0%nat 3%nat ++ runs 1%nat 2%nat ++ runs 0%nat 1%nat ++ runs 2%nat 2%nat))
+  trace (reach sem_sc res100 all_started false 1 (runs 0%nat 3%nat ++ runs 1%nat 2%nat ++ runs 0%nat 1%nat ++ runs 2%nat 2%nat))
   = [EvRet 2%nat SemTryWait 0; EvRet 0%nat (SemWaitT 5) 1; EvRet 1%nat SemSignal 0; EvRet 0%nat SemWait 1].
 Proof. vm_compute. reflexivity. Qed.
 
@@ -417,7 +417,7 @@ Proof. vm_compute. reflexivity. Qed.
    deadline it fires; the clock starts at ...999999999 ns so that the nanosecond field carries *)
 Definition tmo_sc := sc3 [SigWaitT 10] [MonLock; MonWaitT 1] [SemWaitT 2].
 Example ex_timed_false_events :
-  trace (reach tmo_sc all_started false 0
+  trace (reach tmo_sc res100 all_started false 0
     ([Clock 1999999999] ++ runs 0%nat 3%nat ++ runs 1%nat 4%nat ++ runs 2%nat 1%nat ++
      [Timeout 0%nat; Clock 2000999999; Timeout 1%nat; Timeout 2%nat; Clock 2001999999; Timeout 2%nat; Clock 2010000000; Timeout 0%nat] ++
      runs 0%nat 2%nat ++ runs 1%nat 1%nat))
@@ -432,8 +432,22 @@ Proof. vm_compute. split; reflexivity. Qed.
 (* Thread: start, the thread function returns 101, join returns 101 *)
 Definition join_sc := sc3 [ThStart 1%nat; ThJoin 1%nat] [CsEnter] [].
 Example ex_join_history :
-  trace (reach join_sc only0 false 0 (runs 0%nat 3%nat ++ runs 1%nat 2%nat ++ runs 0%nat 1%nat))
+  trace (reach join_sc res100 only0 false 0 (runs 0%nat 4%nat ++ runs 1%nat 2%nat ++ runs 0%nat 1%nat))
   = [EvRet 0%nat (ThJoin 1%nat) 101; EvJoin 0%nat 1%nat 101; EvExit 1%nat 101; EvRet 1%nat CsEnter 1; EvRet 0%nat (ThStart 1%nat) 1].
+Proof. vm_compute. reflexivity. Qed.
+(* the child runs FIRST: pthread_create has succeeded, the creator stands at ThStartRet (start() has not returned, the
+   handle is not stored yet), the child runs to its end, only then start() returns; the result is any value the script
+   gives (here above 2^31 with a zero low byte) *)
+Definition res_big (t : tid) : Z := match t with S O => 4000000256 | _ => 7 end.
+Definition join_child_first := reach join_sc res_big only0 false 0 (runs 0%nat 2%nat ++ runs 1%nat 2%nat).
+Example ex_join_child_first_mid :
+  (pc (tc join_child_first 0%nat), handle join_child_first 1%nat, st (ps join_child_first) 1%nat, enabled join_child_first 0%nat)
+  = (ThStartRet 1%nat, false, TDone 4000000256, true).
+Proof. vm_compute. reflexivity. Qed.
+Example ex_join_child_first_history :
+  trace (reach join_sc res_big only0 false 0 (runs 0%nat 2%nat ++ runs 1%nat 2%nat ++ runs 0%nat 3%nat))
+  = [EvRet 0%nat (ThJoin 1%nat) 4000000256; EvJoin 0%nat 1%nat 4000000256; EvRet 0%nat (ThStart 1%nat) 1;
+     EvExit 1%nat 4000000256; EvRet 1%nat CsEnter 1].
 Proof. vm_compute. reflexivity. Qed.
 
 (* ---------------- fine machine ---------------- *)
@@ -441,7 +455,7 @@ Proof. vm_compute. reflexivity. Qed.
    lock (not enabled), the clock advances, a spurious move and thread 2's first step happen; nothing is logged yet and
    the flag is still down: premises of fine_signal_accesses_under_mutex / fine_flag_stable *)
 Definition fine_sig_sched := runs 1%nat 2%nat ++ runs 0%nat 2%nat ++ [Clock 5; Spurious 0%nat] ++ runs 2%nat 1%nat.
-Definition fine_sig_mid := freach sig_sc all_started false 0 fine_sig_sched.
+Definition fine_sig_mid := freach sig_sc res100 all_started false 0 fine_sig_sched.
 Example ex_fine_signal_pending :
   (fp fine_sig_mid 1%nat, m_owner (mtx (ps (base fine_sig_mid)) SM), pc (tc (base fine_sig_mid) 0%nat), enabled (base fine_sig_mid) 0%nat,
    sigf (base fine_sig_mid), trace (base fine_sig_mid), now (ps (base fine_sig_mid)), foreign_unlock fine_sig_mid)
@@ -450,9 +464,9 @@ Proof. vm_compute. reflexivity. Qed.
 (* the fine run continued to the end, and the coarse run of fine_granularity_adds_no_behaviours: the same moves minus the
    access moves (here the histories are even equal) *)
 Example ex_fine_signal_history :
-  trace (base (freach sig_sc all_started false 0 (fine_sig_sched ++ runs 1%nat 3%nat ++ runs 0%nat 3%nat ++ runs 2%nat 3%nat)))
+  trace (base (freach sig_sc res100 all_started false 0 (fine_sig_sched ++ runs 1%nat 3%nat ++ runs 0%nat 3%nat ++ runs 2%nat 3%nat)))
   = [EvRet 2%nat SigWait 1; EvRet 0%nat SigWait 1; EvRet 1%nat SigSet 0; EvSigWrite 1%nat true]
-  /\ trace (reach sig_sc all_started false 0 (fine_sig_sched ++ runs 1%nat 2%nat ++ runs 0%nat 2%nat ++ runs 2%nat 2%nat))
+  /\ trace (reach sig_sc res100 all_started false 0 (fine_sig_sched ++ runs 1%nat 2%nat ++ runs 0%nat 2%nat ++ runs 2%nat 2%nat))
   = [EvRet 2%nat SigWait 1; EvRet 0%nat SigWait 1; EvRet 1%nat SigSet 0; EvSigWrite 1%nat true].
 Proof. vm_compute. split; reflexivity. Qed.
 
@@ -460,14 +474,14 @@ Proof. vm_compute. split; reflexivity. Qed.
    writes.  The fine history has the failed tryLock BEFORE the flag write; in the coarse machine the tryLock can fail only
    after thread 0's lock move, which has already logged EvMonSet.  The two histories differ by one swap of independent events *)
 Definition try_sc := sc3 [MonSet] [MonTryLock] [].
-Definition fine_try_mid := freach try_sc all_started false 0 (runs 0%nat 2%nat ++ runs 1%nat 2%nat).
+Definition fine_try_mid := freach try_sc res100 all_started false 0 (runs 0%nat 2%nat ++ runs 1%nat 2%nat).
 Example ex_fine_monitor_pending :
   (fp fine_try_mid 0%nat, m_owner (mtx (ps (base fine_try_mid)) MM), monf (base fine_try_mid), trace (base fine_try_mid), foreign_unlock fine_try_mid)
   = (FMonWrite, Some 0%nat, false, [EvRet 1%nat MonTryLock 0], false).
 Proof. vm_compute. reflexivity. Qed.
 Example ex_fine_log_differs :
-  trace (base (freach try_sc all_started false 0 (runs 0%nat 2%nat ++ runs 1%nat 2%nat ++ runs 0%nat 1%nat))) = [EvMonSet 0%nat; EvRet 1%nat MonTryLock 0]
-  /\ trace (reach try_sc all_started false 0 (runs 0%nat 2%nat ++ runs 1%nat 2%nat)) = [EvRet 1%nat MonTryLock 0; EvMonSet 0%nat].
+  trace (base (freach try_sc res100 all_started false 0 (runs 0%nat 2%nat ++ runs 1%nat 2%nat ++ runs 0%nat 1%nat))) = [EvMonSet 0%nat; EvRet 1%nat MonTryLock 0]
+  /\ trace (reach try_sc res100 all_started false 0 (runs 0%nat 2%nat ++ runs 1%nat 2%nat)) = [EvRet 1%nat MonTryLock 0; EvMonSet 0%nat].
 Proof. vm_compute. split; reflexivity. Qed.
 Example ex_fine_log_swap : tr_eq [EvRet 1%nat MonTryLock 0; EvMonSet 0%nat] [EvMonSet 0%nat; EvRet 1%nat MonTryLock 0].
 Proof. apply tr_swap. vm_compute. reflexivity. Qed.
@@ -477,23 +491,23 @@ Proof. apply tr_swap. vm_compute. reflexivity. Qed.
 Definition tmo1_sc := sc3 [MonLock; MonWaitT 1] [] [].
 Definition fine_tmo_sched := runs 0%nat 4%nat ++ [Clock 1000000; Timeout 0%nat] ++ runs 0%nat 1%nat ++ [Clock 7000000].
 Example ex_fine_timed_pending :
-  (fp (freach tmo1_sc all_started false 0 fine_tmo_sched) 0%nat, now (ps (base (freach tmo1_sc all_started false 0 fine_tmo_sched))))
+  (fp (freach tmo1_sc res100 all_started false 0 fine_tmo_sched) 0%nat, now (ps (base (freach tmo1_sc res100 all_started false 0 fine_tmo_sched))))
   = (FMonRead (Some (0, 1000000)) ETIMEDOUT 1000000, 7000000).
 Proof. vm_compute. reflexivity. Qed.
 Example ex_fine_timed_history :
-  trace (base (freach tmo1_sc all_started false 0 (fine_tmo_sched ++ runs 0%nat 1%nat)))
+  trace (base (freach tmo1_sc res100 all_started false 0 (fine_tmo_sched ++ runs 0%nat 1%nat)))
   = [EvRet 0%nat (MonWaitT 1) 0; EvTimedFalse 0%nat (MonWaitT 1) 0 1000000; EvRet 0%nat MonLock 0]
-  /\ trace (reach tmo1_sc all_started false 0 fine_tmo_sched)
+  /\ trace (reach tmo1_sc res100 all_started false 0 fine_tmo_sched)
   = [EvRet 0%nat (MonWaitT 1) 0; EvTimedFalse 0%nat (MonWaitT 1) 0 1000000; EvRet 0%nat MonLock 0].
 Proof. vm_compute. split; reflexivity. Qed.
 
 (* two pending accesses at once (one per flag); fine_completes: two more moves make the state quiescent, the history grows;
    the coarse history differs by swaps only *)
 Definition two_sc := sc3 [SigSet] [MonSet] [MonTryLock].
-Definition fine_two := freach two_sc all_started false 0 (runs 0%nat 2%nat ++ runs 1%nat 2%nat ++ runs 2%nat 2%nat).
+Definition fine_two := freach two_sc res100 all_started false 0 (runs 0%nat 2%nat ++ runs 1%nat 2%nat ++ runs 2%nat 2%nat).
 Example ex_fine_two_pending :
   (fp fine_two 0%nat, fp fine_two 1%nat, trace (base fine_two), trace (base (frun_all fine_two [Run 1%nat; Run 0%nat])),
-   trace (reach two_sc all_started false 0 (runs 0%nat 2%nat ++ runs 1%nat 2%nat ++ runs 2%nat 2%nat)))
+   trace (reach two_sc res100 all_started false 0 (runs 0%nat 2%nat ++ runs 1%nat 2%nat ++ runs 2%nat 2%nat)))
   = (FSigWrite true SigSetBcast, FMonWrite, [EvRet 2%nat MonTryLock 0],
      [EvSigWrite 0%nat true; EvMonSet 1%nat; EvRet 2%nat MonTryLock 0],
      [EvRet 2%nat MonTryLock 0; EvMonSet 1%nat; EvSigWrite 0%nat true]).
@@ -503,7 +517,7 @@ Example ex_fine_all_ok :
 Proof. vm_compute. reflexivity. Qed.
 (* the race of fine_monitor_race_under_foreign_unlock at the moment both waiters stand in front of their read: two threads
    at a Monitor access, the second owns MM, the first does not any more *)
-Definition race_mid := freach race_scripts all_started false 0 (firstn 19 race_sched).
+Definition race_mid := freach race_scripts res100 all_started false 0 (firstn 19 race_sched).
 Example ex_fine_race_two_at_access :
   (fp race_mid 0%nat, fp race_mid 1%nat, m_owner (mtx (ps (base race_mid)) MM), foreign_unlock race_mid)
   = (FMonRead None 0 0, FMonRead None 0 0, Some 1%nat, true).
